@@ -373,20 +373,23 @@ Section Raft.
   (** the memory invariant: nothing canonical below the applied index is missing, every recorded
       (height -> index) pair points at or below the entry that produced the height, the record for
       lastExec exists (it is the map's highest key) and, in the repaired restart, is exact *)
+  Definition is_top (m : list (N * N)) (k v : N) : Prop :=
+    alookup N.eqb k m = Some v /\ forall kv, In kv m -> fst kv <= k.
+
   Definition MI (m : rmem) : Prop :=
     ch (applied m) <= lastExec m
     /\ (forall kv, In kv (bai m) -> fst kv <= lastExec m /\ ch (snd kv) <= fst kv)
-    /\ (exists v, alookup N.eqb (lastExec m) (bai m) = Some v
-                  /\ (d_restart_height_only d = false -> ch v = lastExec m)).
+    /\ (exists k v, is_top (bai m) k v
+                    /\ (d_restart_height_only d = false -> ch v = lastExec m \/ ch (applied m) = lastExec m)).
 
   Definition safe : Prop := d_restart_height_only d = false \/ nogap (c_init c) lg.
 
   Lemma MI_top m : MI m -> exists v, bai_top (bai m) = v /\ ch v <= lastExec m
-                                     /\ (d_restart_height_only d = false -> ch v = lastExec m).
+                                     /\ (d_restart_height_only d = false -> ch v = lastExec m \/ ch (applied m) = lastExec m).
   Proof.
-    intros [Ha [Hb [v [Hv Hx]]]]. exists v. split; [|split].
-    - apply (bai_top_eq _ (lastExec m)); [exact Hv|]. intros kv Hin. apply Hb. exact Hin.
-    - apply alookup_in in Hv. apply Hb in Hv. exact (proj2 Hv).
+    intros [Ha [Hb [k [v [[Hv Hall] Hx]]]]]. exists v. split; [|split].
+    - apply (bai_top_eq _ k); [exact Hv|exact Hall].
+    - apply alookup_in in Hv. apply Hb in Hv. cbn [fst snd] in Hv. lia.
     - exact Hx.
   Qed.
 
@@ -400,17 +403,22 @@ Section Raft.
     ((evs = [] /\ lastExec m' = lastExec m) \/
      (exists h txs, evs = [(idx, (h, txs))] /\ acc (idx, (h, txs)) /\ h = lastExec m + 1 /\ lastExec m' = h)).
   Proof.
-    intros Hsafe HMI Hidx He Hp. pose proof HMI as [Ha [Hb Hc]].
+    intros Hsafe HMI Hidx He Hp. pose proof HMI as [Ha [Hb [k [v0 [Htop0 Hx0]]]]].
     destruct (MI_top m HMI) as [v [Htop [Hv1 Hv2]]].
-    subst idx. unfold publish1 in Hp. destruct e as [|h txs].
+    assert (Hvv : v = v0).
+    { rewrite <- Htop. destruct Htop0 as [Hl Hall]. apply (bai_top_eq _ k); assumption. }
+    subst v0. subst idx. unfold publish1 in Hp. destruct e as [|h txs].
     - inversion Hp; subst m' evs. clear Hp. cbn.
       split; [|split; [reflexivity|split; [repeat split|left; split; reflexivity]]].
-      unfold MI. cbn. rewrite (ch_succ _ _ _ _ He). cbn [ch_step]. split; [exact Ha|]. split; [exact Hb|exact Hc].
+      unfold MI. cbn. rewrite (ch_succ _ _ _ _ He). cbn [ch_step]. split; [exact Ha|]. split; [exact Hb|].
+      exists k, v. split; assumption.
     - rewrite Htop in Hp. destruct (applied m + 1 <=? v) eqn:E1.
       + inversion Hp; subst m' evs. clear Hp. cbn.
         split; [|split; [reflexivity|split; [repeat split|left; split; reflexivity]]].
-        unfold MI. cbn. split; [|split; [exact Hb|exact Hc]].
-        pose proof (ch_mono (c_init c) lg (applied m + 1) v ltac:(lia)). lia.
+        pose proof (ch_mono (c_init c) lg (applied m + 1) v ltac:(lia)) as Hm1.
+        pose proof (ch_mono (c_init c) lg (applied m) (applied m + 1) ltac:(lia)) as Hm2.
+        unfold MI. cbn. split; [lia|]. split; [exact Hb|].
+        exists k, v. split; [exact Htop0|]. intro Hoff. destruct (Hv2 Hoff) as [Hl|Hr]; [left; exact Hl|right; lia].
       + destruct (h =? lastExec m + 1) eqn:E2; cbn [negb] in Hp.
         * (* handed to the executor *)
           apply N.eqb_eq in E2.
@@ -418,7 +426,7 @@ Section Raft.
           { destruct (N.eq_dec (ch (applied m)) (lastExec m)) as [E|E]; [exact E|]. exfalso.
             assert (Hlt : ch (applied m) < lastExec m) by lia.
             destruct Hsafe as [Hoff|Hng].
-            - specialize (Hv2 Hoff). rewrite <- Hv2 in Hlt. apply ch_lt_idx in Hlt. lia.
+            - destruct (Hv2 Hoff) as [Hl|Hr]; [|contradiction]. rewrite <- Hl in Hlt. apply ch_lt_idx in Hlt. lia.
             - pose proof (nogap_entry _ _ _ _ _ Hng He). lia. }
           assert (Hacc : acc (applied m + 1, (h, txs))).
           { cbn. split; [lia|]. split; [exact He|]. replace (applied m + 1 - 1) with (applied m) by lia. lia. }
@@ -430,13 +438,19 @@ Section Raft.
           -- intros kv Hin. apply in_aset in Hin. destruct Hin as [->|Hin]; cbn [fst snd].
              ++ split; lia.
              ++ specialize (Hb kv Hin). split; lia.
-          -- exists (applied m + 1). split; [apply alookup_aset_eq|]. intros _. exact Hch.
+          -- exists h, (applied m + 1). split.
+             ++ split; [apply alookup_aset_eq|]. intros kv Hin. apply in_aset in Hin.
+                destruct Hin as [->|Hin]; cbn [fst]; [lia|]. specialize (Hb kv Hin). lia.
+             ++ intros _. left. exact Hch.
         * inversion Hp; subst m' evs. clear Hp. cbn.
           split; [|split; [reflexivity|split; [repeat split|left; split; reflexivity]]].
-          unfold MI. cbn. split; [|split; [exact Hb|exact Hc]].
-          rewrite (ch_succ _ _ _ _ He). cbn [ch_step].
-          destruct (h =? ch (applied m) + 1) eqn:E3; [|exact Ha].
-          apply N.eqb_eq in E3. apply N.eqb_neq in E2. lia.
+          apply N.eqb_neq in E2.
+          assert (Hstep : ch (applied m + 1) = ch (applied m) \/ (ch (applied m + 1) = h /\ h = ch (applied m) + 1)).
+          { rewrite (ch_succ _ _ _ _ He). cbn [ch_step]. destruct (h =? ch (applied m) + 1) eqn:E3; [right|left; reflexivity].
+            apply N.eqb_eq in E3. split; [reflexivity|exact E3]. }
+          unfold MI. cbn. split; [destruct Hstep as [->|[-> Hh]]; lia|]. split; [exact Hb|].
+          exists k, v. split; [exact Htop0|]. intro Hoff. destruct (Hv2 Hoff) as [Hl|Hr]; [left; exact Hl|right].
+          destruct Hstep as [->|[_ Hh]]; [exact Hr|lia].
   Qed.
 
   (** entries with consecutive indices taken from the log *)
@@ -544,12 +558,37 @@ Section Raft.
     /\ bai (after_elected m st) = bai m /\ snapIdx (after_elected m st) = snapIdx m.
   Proof. unfold after_elected. destruct (justElected m); cbn; repeat split. Qed.
 
+  Lemma contig_from_i_spec bs : forall cc, contig_from_i cc bs = true -> contig_from cc (map snd bs).
+  Proof.
+    induction bs as [|b t IH]; intros cc H; cbn [contig_from_i map contig_from] in *; [exact I|].
+    apply andb_true_iff in H. destruct H as [H1 H2]. apply N.eqb_eq in H1. split; [exact H1|apply IH; exact H2].
+  Qed.
+
+  Lemma acc_b_spec ib : acc_b (c_init c) lg ib = true -> acc ib.
+  Proof.
+    destruct ib as [idx [h txs]]. unfold acc_b, OrderProofs.acc. intro H.
+    apply andb_true_iff in H. destruct H as [H1 H2]. apply N.leb_le in H1.
+    destruct (entry_at lg idx) as [e|] eqn:E; [|discriminate].
+    destruct e as [|h' txs']; [discriminate|].
+    rewrite !andb_true_iff in H2. destruct H2 as [[Ha Hb] Hc].
+    apply N.eqb_eq in Ha. apply N.eqb_eq in Hc. apply (list_eqb_spec N.eqb N_eqb_spec2) in Hb. subst h' txs'.
+    split; [exact H1|]. split; [reflexivity|exact Hc].
+  Qed.
+
+  Lemma sync_ok_spec from to bs : sync_ok (c_init c) lg from to bs = true ->
+    Forall acc bs /\ contig_from from (map snd bs) /\ from + N.of_nat (length bs) = to.
+  Proof.
+    unfold sync_ok. intro H. apply andb_true_iff in H. destruct H as [H H3]. apply andb_true_iff in H. destruct H as [H1 H2].
+    split; [|split; [apply contig_from_i_spec; exact H2|apply N.eqb_eq; exact H3]].
+    apply Forall_forall. intros ib Hin. apply acc_b_spec. rewrite forallb_forall in H1. exact (H1 ib Hin).
+  Qed.
+
   Definition shadow_ok (sh : shadow) (s : rsys) : Prop :=
     sh_cur sh = lastExec (mem s) /\ sh_chain sh = chain (ex s) /\ sh_queue sh = map snd (queue (ex s)).
 
   Lemma shadow_default sh s s' (o : rout) op :
     shadow_ok sh s ->
-    (match op with OExec | OCrash => False | _ => True end) ->
+    (match op with OExec | OCrash _ => False | _ => True end) ->
     lastExec (mem s') = lastExec (mem s) + N.of_nat (length (o_ev o)) ->
     chain (ex s') = chain (ex s) -> queue (ex s') = queue (ex s) ++ o_ev o ->
     shadow_ok (shadow_step sh op (obs_of s' o)) s'.
@@ -564,7 +603,7 @@ Section Raft.
 
   Lemma rstep_shadow sh s op s' o :
     shadow_ok sh s -> rstep d c lg s op = Some (s', o) ->
-    contig_from (match op with OCrash => sh_chain sh | _ => sh_cur sh end) (b_ev (obs_of s' o))
+    contig_from (match op with OCrash _ => sh_chain sh | _ => sh_cur sh end) (b_ev (obs_of s' o))
     /\ shadow_ok (shadow_step sh op (obs_of s' o)) s'.
   Proof.
     intros Hsh Hst. pose proof Hsh as [H1 [H2 H3]]. destruct op; cbn [rstep] in Hst.
@@ -601,8 +640,23 @@ Section Raft.
       + inversion Hst; subst s' o. clear Hst. split; [exact I|].
         apply (shadow_default sh s); cbn; try exact I; try reflexivity; try assumption; try lia. rewrite app_nil_r. reflexivity.
     - (* OCrash *)
-      inversion Hst; subst s' o. clear Hst. split; [exact I|].
-      unfold shadow_step, shadow_ok. cbn. repeat split; exact H2.
+      match type of Hst with (if ?cnd then _ else _) = _ => destruct cnd eqn:Ec; [|discriminate] end.
+      inversion Hst; subst s' o. clear Hst.
+      assert (Hcon : contig_from (chain (ex s)) (map snd bs)).
+      { destruct (negb (d_snapin_lost d) && (chain (ex s) <? dsnapH (disk s))).
+        - destruct (sync_ok_spec _ _ _ Ec) as [_ [Hc _]]. exact Hc.
+        - destruct bs; [exact I|discriminate]. }
+      split; [cbn; rewrite H2; exact Hcon|].
+      unfold shadow_step, shadow_ok. cbn. rewrite map_length, H2. repeat split.
+    - (* OSnapIn *)
+      match type of Hst with (if ?cnd then _ else _) = _ => destruct cnd eqn:Ec; [|discriminate] end.
+      rewrite !andb_true_iff in Ec. destruct Ec as [[[[_ _] _] Hok] _].
+      destruct (sync_ok_spec _ _ _ Hok) as [_ [Hc Hlen]].
+      inversion Hst; subst s' o. clear Hst.
+      split; [cbn; rewrite H1; exact Hc|].
+      apply (shadow_default sh s); try exact I; try assumption; cbn; try reflexivity.
+      match goal with |- lastExec (after_elected ?m ?a) = _ => destruct (after_elected_frame m a) as [Hg _]; rewrite Hg end.
+      reflexivity.
     - (* OPropose *)
       destruct (leader (mem s) =? c_id c).
       + inversion Hst; subst s' o. clear Hst. split; [exact I|].
@@ -626,18 +680,21 @@ Section Raft.
   Qed.
 
   (** ** The system invariant (needs: repaired restart or a log without entries from the future;
-      no snapshot ahead of execution) *)
+      no snapshot ahead of execution; start-up fetches what a received snapshot still lacks) *)
   Definition QI (m : rmem) (x : rexec) : Prop :=
     Forall acc (queue x) /\ contig_from (chain x) (map snd (queue x))
     /\ lastExec m = chain x + N.of_nat (length (queue x)).
 
   Definition DI (s : rsys) : Prop :=
     ch (persisted (disk s)) <= chain (ex s)
-    /\ ch (dsnap (disk s)) <= chain (ex s)
+    /\ ((ch (dsnap (disk s)) <= chain (ex s) /\ dsnapH (disk s) <= chain (ex s))
+        \/ ch (dsnap (disk s)) = dsnapH (disk s))
     /\ snapIdx (mem s) = dsnap (disk s)
     /\ ch (chainIdx (ex s)) = chain (ex s).
 
   Definition Inv (s : rsys) : Prop := MI (mem s) /\ QI (mem s) (ex s) /\ DI s.
+
+  Definition repaired_rest : Prop := d_snap_unexecuted d = false /\ d_snapin_lost d = false.
 
   Lemma MI_frame m m' : lastExec m' = lastExec m -> applied m' = applied m -> bai m' = bai m -> MI m -> MI m'.
   Proof. unfold MI. intros -> -> ->. tauto. Qed.
@@ -648,16 +705,18 @@ Section Raft.
     split; [|split].
     - split; [unfold Order.ch; cbn; lia|]. split.
       + intros kv [<-|[]]. cbn. destruct (d_restart_height_only d); unfold Order.ch; cbn; lia.
-      + rewrite N.eqb_refl. eexists. split; [reflexivity|]. intros ->. reflexivity.
+      + exists (c_init c). eexists. split.
+        * split; [cbn; rewrite N.eqb_refl; reflexivity|]. intros kv [<-|[]]. cbn. lia.
+        * intros ->. left. reflexivity.
     - split; [constructor|]. split; [exact I|lia].
-    - unfold Order.ch. cbn. repeat split; lia.
+    - unfold Order.ch. cbn. split; [lia|]. split; [left; split; lia|]. split; reflexivity.
   Qed.
 
   Lemma rstep_inv s op s' o :
-    safe -> d_snap_unexecuted d = false -> Inv s -> rstep d c lg s op = Some (s', o) ->
+    safe -> repaired_rest -> Inv s -> rstep d c lg s op = Some (s', o) ->
     Inv s' /\ Forall acc (o_ev o).
   Proof.
-    intros Hsafe Hns [HMI [HQI HDI]] Hst.
+    intros Hsafe [Hns Hni] [HMI [HQI HDI]] Hst.
     pose proof HQI as [Hq1 [Hq2 Hq3]]. pose proof HDI as [Hd1 [Hd2 [Hd3 Hd4]]].
     destruct op; cbn [rstep] in Hst.
     - (* OAppend *)
@@ -686,11 +745,12 @@ Section Raft.
         * rewrite app_length.
           assert (lastExec m2 = chain (ex s) + N.of_nat (length (queue (ex s)) + length evs)) by lia.
           destruct ((c_snap c <=? applied m2 - snapIdx m2) && snap_guard d m2 (ex s)); cbn [lastExec]; exact H.
-      + unfold DI. cbn [persisted dsnap chain chainIdx disk ex mem].
+      + unfold DI. cbn [persisted dsnap dsnapH chain chainIdx disk ex mem].
         destruct ((c_snap c <=? applied m2 - snapIdx m2) && snap_guard d m2 (ex s)) eqn:Esn; cbn [snapIdx].
         * apply andb_true_iff in Esn. destruct Esn as [_ Hgd]. unfold snap_guard in Hgd. rewrite Hns in Hgd.
-          apply N.leb_le in Hgd. destruct HMI2 as [Ha _]. repeat split; try assumption; lia.
-        * repeat split; try assumption. congruence.
+          apply N.leb_le in Hgd. destruct HMI2 as [Ha _].
+          split; [exact Hd1|]. split; [left; split; lia|]. split; [reflexivity|exact Hd4].
+        * split; [exact Hd1|]. split; [exact Hd2|]. split; [congruence|exact Hd4].
     - (* OExec *)
       destruct (queue (ex s)) as [|[i [h t]] q] eqn:Eq.
       + inversion Hst; subst s' o. clear Hst. split; [|constructor]. unfold Inv. rewrite ?Eq. auto.
@@ -699,30 +759,69 @@ Section Raft.
         pose proof (acc_ch _ _ _ _ _ Ha) as Hch.
         unfold Inv, QI, DI. cbn. split; [exact HMI|]. split.
         * split; [exact Hq'|]. split; [rewrite Hh; exact Hq2|]. cbn [length] in Hq3. lia.
-        * repeat split; try assumption; lia.
+        * split; [lia|]. split; [destruct Hd2 as [[H1 H2]|H]; [left; split; lia|right; exact H]|]. split; assumption.
     - (* OReport *)
       destruct (h <=? chain (ex s)) eqn:Eh; [|discriminate]. apply N.leb_le in Eh.
       destruct (alookup N.eqb h (bai (mem s))) as [i|] eqn:El.
       + inversion Hst; subst s' o. clear Hst. split; [|constructor].
-        destruct HMI as [Ha [Hb [v [Hv Hx]]]].
+        destruct HMI as [Ha [Hb [k [v [[Hv Hall] Hx]]]]].
         pose proof (Hb _ (alookup_in _ _ _ El)) as [Hk1 Hk2]. cbn [fst snd] in Hk1, Hk2.
+        pose proof (Hall _ (alookup_in _ _ _ El)) as Hk3. cbn [fst] in Hk3.
         unfold Inv, MI, QI, DI. cbn. split; [|split].
         * split; [exact Ha|]. destruct (h =? 0) eqn:E0.
-          -- split; [exact Hb|]. exists v. split; assumption.
+          -- split; [exact Hb|]. exists k, v. split; [split; assumption|exact Hx].
           -- apply N.eqb_neq in E0. split.
              ++ intros kv Hin. apply Hb. eapply in_aremove. exact Hin.
-             ++ exists v. split; [|exact Hx]. rewrite alookup_aremove_ne; [exact Hv|lia].
+             ++ exists k, v. split; [|exact Hx]. split.
+                ** rewrite alookup_aremove_ne; [exact Hv|lia].
+                ** intros kv Hin. apply Hall. eapply in_aremove. exact Hin.
         * auto.
-        * repeat split; try assumption. lia.
+        * split; [lia|]. split; [exact Hd2|]. split; assumption.
       + inversion Hst; subst s' o. clear Hst. split; [|constructor]. unfold Inv. auto.
     - (* OCrash *)
-      inversion Hst; subst s' o. clear Hst. split; [|constructor].
-      unfold Inv, MI, QI, DI, restart_mem. cbn. split; [|split].
-      + split; [exact Hd2|]. split.
-        * intros kv [<-|[]]. cbn. destruct (d_restart_height_only d); lia.
-        * rewrite N.eqb_refl. eexists. split; [reflexivity|]. intros ->. exact Hd4.
-      + split; [constructor|]. split; [exact I|lia].
-      + repeat split; assumption.
+      match type of Hst with (if ?cnd then _ else _) = _ => destruct cnd eqn:Ec; [|discriminate] end.
+      inversion Hst; subst s' o. clear Hst. cbn [o_ev]. rewrite Hni in Ec. cbn [negb andb] in Ec.
+      destruct (chain (ex s) <? dsnapH (disk s)) eqn:Er.
+      + (* the repaired start-up fetches chain+1 .. dsnapH *)
+        apply N.ltb_lt in Er. destruct (sync_ok_spec _ _ _ Ec) as [Hacc [Hcon Hlen]].
+        assert (Hsn : ch (dsnap (disk s)) = dsnapH (disk s)) by (destruct Hd2 as [[_ H]|H]; [lia|exact H]).
+        split; [|exact Hacc].
+        unfold Inv, MI, QI, DI, restart_mem. cbn. split; [|split].
+        * split; [lia|]. split.
+          -- intros kv [<-|[]]. cbn. destruct (d_restart_height_only d); lia.
+          -- exists (chain (ex s)). eexists. split.
+             ++ split; [cbn; rewrite N.eqb_refl; reflexivity|]. intros kv [<-|[]]. cbn. lia.
+             ++ intros _. right. lia.
+        * split; [exact Hacc|]. split; [exact Hcon|lia].
+        * split; [exact Hd1|]. split; [exact Hd2|]. split; [reflexivity|exact Hd4].
+      + apply N.ltb_ge in Er. destruct bs as [|b0 bs]; [|discriminate]. split; [|constructor].
+        unfold Inv, MI, QI, DI, restart_mem. cbn. rewrite N.add_0_r. split; [|split].
+        * split; [destruct Hd2 as [[H1 H2]|H]; lia|]. split.
+          -- intros kv [<-|[]]. cbn. destruct (d_restart_height_only d); lia.
+          -- exists (chain (ex s)). eexists. split.
+             ++ split; [cbn; rewrite N.eqb_refl; reflexivity|]. intros kv [<-|[]]. cbn. lia.
+             ++ intros ->. left. exact Hd4.
+        * split; [constructor|]. split; [exact I|lia].
+        * split; [exact Hd1|]. split; [exact Hd2|]. split; [reflexivity|exact Hd4].
+    - (* OSnapIn *)
+      match type of Hst with (if ?cnd then _ else _) = _ => destruct cnd eqn:Ec; [|discriminate] end.
+      rewrite !andb_true_iff in Ec. destruct Ec as [[[[Hi1 Hi2] Hi3] Hok] _].
+      destruct (sync_ok_spec _ _ _ Hok) as [Hacc [Hcon Hlen]].
+      inversion Hst; subst s' o. clear Hst. cbn [o_ev]. split; [|exact Hacc].
+      match goal with |- Inv {| mem := after_elected ?m ?a; disk := _; ex := _; avail := _ |} =>
+        destruct (after_elected_frame m a) as [Hg1 [Hg2 [Hg3 Hg4]]]; set (m1 := m) in * end.
+      destruct HMI as [Ha [Hb [k [v [Htop Hx]]]]].
+      assert (HMI1 : MI m1).
+      { unfold MI, m1. cbn. split; [lia|]. split.
+        - intros kv Hin. specialize (Hb kv Hin). lia.
+        - exists k, v. split; [exact Htop|]. intros _. right. lia. }
+      unfold Inv. cbn [mem ex disk]. split; [|split].
+      + apply (MI_frame m1); assumption.
+      + unfold QI. cbn [queue chain]. split; [apply Forall_app; split; assumption|]. split.
+        * rewrite map_app. apply contig_from_app; [exact Hq2|]. rewrite map_length, <- Hq3. exact Hcon.
+        * rewrite app_length, Hg1. unfold m1. cbn. lia.
+      + unfold DI. cbn [persisted dsnap dsnapH chain chainIdx disk ex mem]. unfold m1 in *. cbn in *.
+        split; [exact Hd1|]. split; [right; lia|]. split; [exact Hg4|exact Hd4].
     - (* OPropose *)
       destruct (leader (mem s) =? c_id c).
       + inversion Hst; subst s' o. clear Hst. split; [|constructor].
@@ -748,14 +847,17 @@ Section Raft.
       + inversion Hst; subst. left. split; [reflexivity|]. exists i, h, t, q. split; reflexivity.
     - destruct (h <=? chain (ex s)); [|discriminate].
       destruct (alookup N.eqb h (bai (mem s))); inversion Hst; subst; right; (split; [reflexivity|discriminate]).
-    - inversion Hst; subst. right. split; [reflexivity|discriminate].
+    - match type of Hst with (if ?cnd then _ else _) = _ => destruct cnd; [|discriminate] end.
+      inversion Hst; subst. right. split; [reflexivity|discriminate].
+    - match type of Hst with (if ?cnd then _ else _) = _ => destruct cnd; [|discriminate] end.
+      inversion Hst; subst. right. split; [reflexivity|discriminate].
     - destruct (leader (mem s) =? c_id c); [inversion Hst; subst; right; split; [reflexivity|discriminate]|].
       destruct (k =? 0); [|discriminate]. inversion Hst; subst. right. split; [reflexivity|discriminate].
     - inversion Hst; subst. right. split; [reflexivity|discriminate].
   Qed.
 
   Lemma rrun_inv ops : forall s sh tr,
-    safe -> d_snap_unexecuted d = false -> Inv s -> shadow_ok sh s -> rrun d c lg s ops = Some tr ->
+    safe -> repaired_rest -> Inv s -> shadow_ok sh s -> rrun d c lg s ops = Some tr ->
     Forall (is_canon (c_init c) lg) (all_events tr)
     /\ Forall (st_noskip (c_init c) lg) tr
     /\ Forall (is_canon (c_init c) lg) (executed sh ops tr)
@@ -799,21 +901,21 @@ Section Raft.
   Proof. apply rrun_contiguous. apply shadow_init_ok. Qed.
 
   Theorem canonical_all ops tr :
-    safe -> d_snap_unexecuted d = false ->
+    safe -> repaired_rest ->
     rrun d c lg (init_sys d c) ops = Some tr -> canonical (c_init c) lg tr.
   Proof.
     intros Hs Hn Hr. destruct (rrun_inv ops _ _ tr Hs Hn Inv_init shadow_init_ok Hr) as [H _]. exact H.
   Qed.
 
   Theorem none_skipped_all ops tr :
-    safe -> d_snap_unexecuted d = false ->
+    safe -> repaired_rest ->
     rrun d c lg (init_sys d c) ops = Some tr -> none_skipped (c_init c) lg tr.
   Proof.
     intros Hs Hn Hr. destruct (rrun_inv ops _ _ tr Hs Hn Inv_init shadow_init_ok Hr) as [_ [H _]]. exact H.
   Qed.
 
   Theorem executed_prefix ops tr :
-    safe -> d_snap_unexecuted d = false ->
+    safe -> repaired_rest ->
     rrun d c lg (init_sys d c) ops = Some tr ->
     is_prefix (executed (shadow_init (c_init c)) ops tr) (canon_blocks (c_init c) lg).
   Proof.
@@ -837,21 +939,22 @@ Proof.
 Qed.
 
 Lemma sh_wf_step sh op o :
-  sh_wf sh -> contig_from (match op with OCrash => sh_chain sh | _ => sh_cur sh end) (b_ev o) ->
+  sh_wf sh -> contig_from (match op with OCrash _ => sh_chain sh | _ => sh_cur sh end) (b_ev o) ->
   sh_wf (shadow_step sh op o).
 Proof.
   intros [H1 H2] Hc.
-  assert (Hdef : sh_wf {| sh_cur := sh_cur sh + N.of_nat (length (b_ev o)); sh_chain := sh_chain sh;
-                          sh_queue := sh_queue sh ++ b_ev o |} \/ op = OCrash).
-  { destruct op; try (right; reflexivity); left; unfold sh_wf; cbn; rewrite app_length;
+  assert (Hdef : (match op with OCrash _ | OExec => True | _ => False end) \/
+                 sh_wf {| sh_cur := sh_cur sh + N.of_nat (length (b_ev o)); sh_chain := sh_chain sh;
+                          sh_queue := sh_queue sh ++ b_ev o |}).
+  { destruct op; try (left; exact I); right; unfold sh_wf; cbn; rewrite app_length;
       (split; [apply contig_from_app; [exact H1|rewrite <- H2; exact Hc] | lia]). }
-  destruct op; cbn [shadow_step]; try (destruct Hdef as [Hd|Hd]; [exact Hd|discriminate]).
+  destruct op; cbn [shadow_step]; try (destruct Hdef as [[]|Hd]; exact Hd).
   - (* OExec *)
     destruct (sh_queue sh) as [|b q] eqn:Eq; [unfold sh_wf; rewrite Eq; split; assumption|].
     unfold sh_wf. cbn. cbn [contig_from] in H1. destruct H1 as [Hb Hq]. cbn [length] in H2.
     split; [rewrite Hb; exact Hq|lia].
   - (* OCrash *)
-    unfold sh_wf. cbn. split; [exact I|lia].
+    unfold sh_wf. cbn. split; [exact Hc|lia].
 Qed.
 
 Lemma contiguous_above ops : forall sh tr, sh_wf sh -> contiguous sh ops tr -> above_executed sh ops tr.
@@ -873,7 +976,7 @@ Proof. intro H. apply contiguous_above; [apply sh_wf_init | eapply contiguous_al
 
 (** * Replicas applying the same log *)
 Theorem same_content d c1 c2 lg ops1 ops2 tr1 tr2 :
-  c_init c1 = c_init c2 -> safe d c1 lg -> d_snap_unexecuted d = false ->
+  c_init c1 = c_init c2 -> safe d c1 lg -> repaired_rest d ->
   rrun d c1 lg (init_sys d c1) ops1 = Some tr1 -> rrun d c2 lg (init_sys d c2) ops2 = Some tr2 ->
   forall a b, In a (all_events tr1) -> In b (all_events tr2) -> fst a = fst b -> a = b.
 Proof.
@@ -1004,14 +1107,20 @@ Qed.
 
 (** within an incarnation the applied index never goes back *)
 Theorem applied_mono d c lg s op s' o :
-  rstep d c lg s op = Some (s', o) -> op <> OCrash -> applied (mem s) <= applied (mem s').
+  rstep d c lg s op = Some (s', o) -> (forall bs, op <> OCrash bs) -> applied (mem s) <= applied (mem s').
 Proof.
-  intros Hst Hne. destruct op; try contradiction.
+  intros Hst Hne. destruct op; try (exfalso; eapply Hne; reflexivity).
   - cbn [rstep] in Hst. destruct (avail s <? N.of_nat (length lg)); [|discriminate]. inversion Hst; subst. cbn. lia.
   - destruct (ready_entry_once _ _ _ _ _ _ _ _ _ _ Hst) as [_ [_ H]]. exact H.
   - cbn [rstep] in Hst. destruct (queue (ex s)) as [|[i [h t]] q]; inversion Hst; subst; cbn; lia.
   - cbn [rstep] in Hst. destruct (h <=? chain (ex s)); [|discriminate].
     destruct (alookup N.eqb h (bai (mem s))); inversion Hst; subst; cbn; lia.
+  - cbn [rstep] in Hst.
+    match type of Hst with (if ?cnd then _ else _) = _ => destruct cnd eqn:Ec; [|discriminate] end.
+    rewrite !andb_true_iff in Ec. destruct Ec as [[[[Hi1 _] _] _] _]. apply N.ltb_lt in Hi1.
+    inversion Hst; subst. cbn [mem].
+    match goal with |- _ <= applied (after_elected ?m ?a) => destruct (after_elected_frame m a) as [_ [Hg _]]; rewrite Hg end.
+    cbn. lia.
   - cbn [rstep] in Hst. destruct (leader (mem s) =? c_id c); [inversion Hst; subst; cbn; lia|].
     destruct (k =? 0); [|discriminate]. inversion Hst; subst. lia.
   - cbn [rstep] in Hst. inversion Hst; subst. lia.
@@ -1164,7 +1273,10 @@ Proof.
   - destruct (queue (ex s)) as [|[i [h t]] q]; inversion Hst; subst; reflexivity.
   - destruct (h <=? chain (ex s)); [|discriminate].
     destruct (alookup N.eqb h (bai (mem s))); inversion Hst; subst; reflexivity.
-  - inversion Hst; subst. reflexivity.
+  - match type of Hst with (if ?cnd then _ else _) = _ => destruct cnd; [|discriminate] end.
+    inversion Hst; subst. reflexivity.
+  - match type of Hst with (if ?cnd then _ else _) = _ => destruct cnd; [|discriminate] end.
+    inversion Hst; subst. cbn [mem]. unfold after_elected. cbn. destruct (justElected (mem s)); reflexivity.
   - destruct (leader (mem s) =? c_id c); [inversion Hst; subst; reflexivity|].
     destruct (k =? 0); [|discriminate]. inversion Hst; subst. reflexivity.
   - inversion Hst; subst. reflexivity.
